@@ -6,8 +6,12 @@ from wire import hx, unhx
 
 KIND = "env"
 SPECS = ["C09"]
-THEOREMS = []
-LEAN_MODULES = ["TbotVerif.Spec.Env"]
+THEOREMS = ["C09.spec_holds", "C09.runProg_spec", "C09.env_roundtrip", "C09.env_set_rejected", "C09.readback_lemma",
+            "C09.block_restores", "C09.exec_after_block", "C09.f7_witness", "Env.exec_ok", "Env.exec0_ok",
+            "Env.fetchRetcode_ok", "Env.set_ok", "Env.get_ok", "Env.runOp_spec", "Env.subEnter_ok", "Env.subExit_ok",
+            "Env.wordsX_escape", "Env.text_cook_enc", "EnvUtf8.decodeReplace_enc", "EnvChan.read_exact",
+            "EnvChan.sendline_rb", "EnvChan.rup_ok", "EnvChan.expect_ok"]
+LEAN_MODULES = ["TbotVerif.Props.C09"]
 QUICK_N, THOROUGH_N = 450, 12000
 QUICK_BUDGET, THOROUGH_BUDGET = 45, 1500
 CASE_WALL = 25
@@ -177,9 +181,23 @@ def spec_line(line):
     return _concrete.get(line, line)
 
 
+_lean = []
+
+
+def in_domain(line):
+    """is the (concrete) case in the domain of the Lean theorems (`Env.Case.wf`)?"""
+    try:
+        if not _lean:
+            from leanproc import Lean
+            _lean.append(Lean())
+        return _lean[0].ask("envwf " + _concrete.get(line, line))
+    except Exception:
+        return "?"
+
+
 def classify(line, obs):
     toks = line.split()
-    ks = ["kind=" + toks[0], "chunk=" + toks[1]]
+    ks = ["kind=" + toks[0], "chunk=" + toks[1], "theorem-domain=" + in_domain(line)]
     depth = mx = 0
     for t in toks[3:]:
         if t in ("[", "[?"):
